@@ -91,6 +91,9 @@ func (e *Engine) Run(ctx context.Context) error {
 
 func parsePosition(size int, words []string) (*tak.Position, error) {
 	var pos *tak.Position
+	if size == 0 {
+		return nil, errors.New("no game in progress: send teinewgame first")
+	}
 	words = words[1:]
 	if len(words) == 0 {
 		return nil, errors.New("not enough arguments")
